@@ -1,9 +1,11 @@
-"""C19 (candidate): `Sout.sensitivity = df_an[Iout]` hands the seed ARRAY ITSELF to the output signal; `blk.reset()` then
+"""C19 (regression witness, repaired in /repo 5a72e1d): `Sout.sensitivity = df_an[Iout]` handed the seed ARRAY ITSELF to the output signal; `blk.reset()` then
 zeroes it in place (a) completely when the output Signal keeps its allocation (constructed with a sensitivity), (b) partly
 when a SignalSlice of the same base signal belongs to the network (SignalSlice.reset writes 0 into the base array before
 the plain signal is set to None).  The numerical values are then computed with the zeroed seed: a CORRECT module is reported
 with a non-matching pair.  (b) happens with the default tosig (all module outputs) as soon as a later module reads a slice
-of an intermediate vector.  Exits 1 while present.  Fix: seed with a copy (`Sout.sensitivity = copy.deepcopy(df_an[Iout])`)."""
+of an intermediate vector; it is exercised here with `fromsig=x` (with the DEFAULT fromsig the slice `y[0:1]` itself counts as a
+network input, which is the separate open finding fd-default-input-is-slice-of-internal-signal, witness
+corpus/defects/pending/c19_default_input_internal_slice.py).  Exits 1 while present.  Fix: the signal is seeded with a deep copy."""
 import contextlib, io, sys
 import numpy as np
 import pymoto as pm
@@ -39,10 +41,10 @@ c = run(Lin3(x, y))
 print("(a)", c)
 if any(an != fd for an, fd in c):
     bad.append("keep_alloc output")
-# (b) intermediate output read through a slice by a later module, default tosig
+# (b) intermediate output read through a slice by a later module, default tosig (outputs y and z), fromsig = x
 x, y, z = pm.Signal('x', np.array([1.0, 2.0])), pm.Signal('y'), pm.Signal('z')
 net = pm.Network(Lin3(x, y), Pick(y[0:1], z))
-c = run(net)
+c = run(net, fromsig=x)
 print("(b)", c)
 if any(an != fd for an, fd in c):
     bad.append("sliced intermediate output")
